@@ -252,6 +252,8 @@ def main(argv=sys.argv):
         group_by = default_group_keys
 
     #Handle each source directory individually
+    #Output names must be unique within a common destination directory
+    dest_dir_outs = set()
     for src_dir in args.src_dirs:
         if not os.path.isdir(src_dir):
             print('%s is not a directory, skipping' % src_dir, file=sys.stderr)
@@ -283,7 +285,10 @@ def main(argv=sys.argv):
             print("No DICOM files found in %s" % src_dir)
 
         out_idx = 0
-        generated_outs = set()
+        if args.dest_dir:
+            generated_outs = dest_dir_outs
+        else:
+            generated_outs = set()
         for key, group in iteritems(groups):
             stack = stack_group(group,
                                 warn_on_except=not args.strict,
